@@ -580,8 +580,8 @@ pub fn run(cfg: &RunCfg, t0: Instant) -> i32 {
             rep.floor("matrix", 2_000);
             rep.floor("accepted_changes_only_named_state", 50);
             fin(rep, cfg, "exploration",
-                "W-admin: the complete matrix, every cell executed on a fork of one prepared state (pool, running farm, open position): 4 contracts x {pool manager: 3 config fields + 3 feature switches; farm manager: 10 config fields, farm expand/close, position create-for-another/expand/close/withdraw; epoch manager: config; all four: transfer/accept/renounce ownership} x sender roles {owner, pending owner, former owner, farm owner, position owner, pool-manager account, farm-manager account, stranger, contract account} x ownership states {initial, transfer pending, transfer pending and expired, transferred, renounced} x {no funds, one coin}; oracle = the table derived from the statement; rejected cells must leave the chain state identical, accepted cells may only change the storage the message names; distinct = cell",
-                &[ASSUME_CHAIN, "the matrix is finite and enumerated completely (exhaustive: true); the prepared state is one state"], t0, json!({"exhaustive": true}))
+                "W-admin: the complete matrix, every cell executed on a fork of a prepared state; prepared states = {position open, closed, closed and unlocked} x {farm running, not started, ended, expired} x {distinct roles, farm owner = position owner, contract owner = farm owner, contract owner = position owner} x {pool manager contract is the farm manager's delegate, an ordinary account re-configured as delegate with its own LP token} x 3 fee/penalty configurations (288; quick runs the first plus a seed-dependent covering sample of ~27, thorough all); cells = 4 contracts x {pool manager: 3 config fields, all at once, none, 3 feature switches; farm manager: 10 config fields, several at once, none, farm expand/close, position create-for-another (auto and explicit id)/expand/close/partial close/withdraw (emergency, None, Some(false)); epoch manager: config, none; all four: transfer (to another, to self with expiry)/accept/renounce ownership} x sender roles {owner, pending owner, superseded pending owner, former owner, farm owner, position owner, pool-manager account, configured delegate, farm-manager, epoch-manager and fee-collector accounts, stranger, contract account} x ownership states {initial, transfer pending, pending with unexpired expiry, pending and expired, re-proposed to another, transferred, transferred back, renounced, renounced while pending} x {no funds, one coin}; oracle = authorised(sender, rule from the statement) and no funds and the message is valid in the prepared state; rejected cells must leave the chain state identical, accepted cells may only change the storage the message names; distinct = (cell, prepared state)",
+                &[ASSUME_CHAIN, "the matrix is finite; thorough enumerates it completely over all 288 prepared states, quick over a sample of them"], t0, json!({"exhaustive": true}))
         }
         "C20" => {
             let shards = cfg.pick(4, 32);
